@@ -105,7 +105,27 @@ pub fn sweep_case(e: &SweepEntry, rng: &mut Rng) -> Case {
             w.files.insert(format!("{CWD}/.editorconfig"), text.into_bytes());
         }
     }
-    let inv = Invocation { opts, stdin: None, faults: vec![], sched: gen::random_sched(rng), dir_key: rng.next() };
+    // target: the directory, explicit files, or stdin (with / without a file path)
+    let mut stdin = None;
+    match rng.below(10) {
+        0..=4 => {}
+        5..=6 => opts.files = vec!["p.lua".into(), "sub/q.lua".into()],
+        7 => {
+            opts.files = vec!["-".into()];
+            stdin = Some(PROBE.as_bytes().to_vec());
+        }
+        8 => {
+            opts.files = vec!["-".into()];
+            opts.stdin_filepath = Some("sub/q.lua".into());
+            stdin = Some(PROBE.as_bytes().to_vec());
+        }
+        _ => {
+            opts.files = vec!["-".into()];
+            opts.no_editorconfig = !e.carrier.starts_with("editorconfig");
+            stdin = Some(PROBE.as_bytes().to_vec());
+        }
+    }
+    let inv = Invocation { opts, stdin, faults: vec![], sched: gen::random_sched(rng), dir_key: rng.next() };
     Case { family: format!("carrier-sweep:{}={}@{}", e.option, e.value, e.carrier), world: w, invs: vec![inv] }
 }
 
